@@ -24,6 +24,15 @@ CHECKS = {
  "C10": ("model_checking", "exhaustive differential enumeration: each event configuration with and without the terminal flag on each function, counts 1..3, t_eval and dense on/off",
          "The run with a terminal flag must stop exactly at the count-th event of the plain run: status, final sample = event point bitwise, nothing later, earlier events kept, everything before the stop bit-identical to the plain run, sol_span covering the last time; if the count is not reached the runs are identical.",
          "events of other functions at exactly the stopping time may be kept or dropped", "DESIGN.md §3 C10", "E1"),
+ "C06": ("model_checking", "exhaustive configuration lattice; every accepted step of every run checked through the low-level SolOut and through Solution::sol",
+         "For the full product method x direction x problem x tolerance x first_step (none/small/large forcing rejections) x max_step, each accepted step's interpolant is evaluated at both ends inside the callback; for solve_ivp runs sol is evaluated at every stored sample, across sol_span, on both sides of every interior boundary, clearly outside, through sol_many, with a terminal event, with dense_output off, and for the zero-length run.",
+         "endpoint identities to 64 eps(1+|y|); BDF runs are required to contain order raises and drops (vacuity guard)", "DESIGN.md §3 C06", "E1"),
+ "C11": ("model_checking", "exhaustive configuration lattice plus EVERY step budget 1..nstep+2 with bitwise prefix comparison",
+         "Accepted step lengths (from low-level callbacks) against max_step for automatic and given initial steps, the first trial step read off the RHS interface against first_step (either sign), the first interval when accepted; and for each configuration every max_steps value from 1 to nstep_full+2: nstep <= b+1, status, bit-identical prefix of the unbudgeted run.",
+         "step lengths are differences of abscissae (slack 4 ulp); the final step may be stretched by 1%", "DESIGN.md §3 C11", "E1"),
+ "C12": ("model_checking", "exhaustive differential enumeration of all 8 subsets of {t_eval, dense_output, non-terminal events} per lattice point, each run twice",
+         "The 128-bit fingerprint of every non-Jacobian RHS call (time and state bits), the statistics, the accepted steps/states and the final state of each subset run are compared with the plain run, and each run with its repetition.",
+         "the RHS call log is the complete record of a deterministic integration", "DESIGN.md §3 C12", "E1"),
  "C16": ("model_checking", "exhaustive enumeration of all small-alphabet matrices (real and complex, n<=3) plus enumerated structured families to 12x12, residuals in double-double",
          "Every matrix over the alphabet is factorised and solved on the real lu_decomp/lin_solve(_complex); exact integer determinants decide singular vs nonsingular; residual bound, multiplier bound, error kinds and immutability of the factors are checked on every case.",
          "backward-stability constant c = 8*rho (growth factor read off the factors, asserted <= 2^(n-1)); complex multipliers bounded by sqrt(2) because the port pivots on |re|+|im|", "DESIGN.md §3 C16", "E1"),
